@@ -100,14 +100,14 @@ Definition to_string_x (v : xvalue) : option bytes :=
 Definition two63 : Z := Z.pow 2 63.
 Definition in_int64 (z : Z) : xout Z := if Z.ltb (Z.abs z) two63 then OVal z else OUnm.
 Definition atoi (s : bytes) : option Z :=
-  let '(neg, s1) := match s with
-                    | 45%N :: r => (true, r)
-                    | 43%N :: r => (false, r)
-                    | _ => (false, s)
-                    end in
-  match dec_digits s1 0%Z O with
-  | Some (v, n, []) => if Nat.eqb n O then None else Some (if neg then Z.opp v else v)
-  | _ => None
+  let digits (neg : bool) (s1 : bytes) : option Z :=
+    match dec_digits s1 0%Z O with
+    | Some (v, n, []) => if Nat.eqb n O then None else Some (if neg then Z.opp v else v)
+    | _ => None
+    end in
+  match s with
+  | c :: r => if N.eqb c 45 then digits true r else if N.eqb c 43 then digits false r else digits false s
+  | [] => None
   end.
 Definition to_int64 (v : xvalue) : xout Z :=
   match v with
